@@ -227,7 +227,7 @@ def simulate_scene(scene: Scene, obj=None, probes=None) -> np.ndarray:
 
 def build_library(scene: Scene, intensities: np.ndarray, *, com_fit="no_shift", install_truth=True, obj_init=None, seed=0, detector_mask=None,
                   val_ratio=0.0, val_mode="grid", learn_descan=False, learn_scan_positions=False, orthogonalize=True, vectorized=True, probe_from="params",
-                  detector_units="A^-1"):
+                  detector_units="A^-1", dset_pre=(), pt_twice=False):
     """Runs the library's own construction + preprocessing on the simulated data and returns the Ptychography object.
 
     obj_init: None -> truth object installed via ObjectPixelated.from_array; "uniform" -> library default initial object.
@@ -252,6 +252,9 @@ def build_library(scene: Scene, intensities: np.ndarray, *, com_fit="no_shift", 
             sampling=[scene.scan_step_A[0], scene.scan_step_A[1], dq[0], dq[1]], units=["A", "A", detector_units, detector_units],
         )
         pdset = PtychographyDatasetRaster.from_dataset4dstem(d4, detector_mask=detector_mask, verbose=0, learn_descan=learn_descan, learn_scan_positions=learn_scan_positions)
+        for earlier in dset_pre:
+            # history: earlier preprocessing passes on the same dataset object (e.g. trying another descan fit first) must not matter
+            pdset.preprocess(com_fit_function=earlier, force_com_rotation=0, force_com_transpose=False, plot_rotation=False, plot_com=False, vectorized=vectorized, probe_energy=scene.energy)
         pdset.preprocess(com_fit_function=com_fit, force_com_rotation=0, force_com_transpose=False, plot_rotation=False, plot_com=False, vectorized=vectorized, probe_energy=scene.energy)
         thick = list(scene.thicknesses) if scene.num_slices > 1 else None
         if obj_init == "uniform":
@@ -263,8 +266,9 @@ def build_library(scene: Scene, intensities: np.ndarray, *, com_fit="no_shift", 
         probe_model = ProbePixelated.from_params(params, num_probes=scene.num_probes, rng=seed)
         det = DetectorPixelated()
         pt = Ptychography.from_models(dset=pdset, obj_model=obj_model, probe_model=probe_model, detector_model=det, device="cpu", verbose=0, rng=seed)
-        pt.preprocess(obj_padding_px=tuple(int(p) for p in scene.pad_req), com_fit_function=com_fit, force_com_rotation=0, force_com_transpose=False,
-                      plot_rotation=False, plot_com=False, val_ratio=val_ratio, val_mode=val_mode)
+        for _rep in range(2 if pt_twice else 1):
+            pt.preprocess(obj_padding_px=tuple(int(p) for p in scene.pad_req), com_fit_function=com_fit, force_com_rotation=0, force_com_transpose=False,
+                          plot_rotation=False, plot_com=False, val_ratio=val_ratio, val_mode=val_mode)
         if not orthogonalize:
             pt.probe_model.add_constraint("orthogonalize_probe", False)
         if install_truth:
